@@ -2,7 +2,7 @@
    Statements only; proofs in proofs/AbftDfs.v AbftChain.v AbftSeal.v AbftProcess.v. *)
 From Coq Require Import NArith List.
 From LV Require Import model.VecIndex model.Abft model.AbftRun spec.AbftSpec
-  proofs.AbftDfs proofs.AbftDfsFuel proofs.AbftSeal proofs.AbftProcess proofs.AbftChain proofs.AbftRoots proofs.AbftRooted proofs.AbftRunInv proofs.AbftSealWitness.
+  proofs.AbftDfs proofs.AbftDfsFuel proofs.AbftSeal proofs.AbftProcess proofs.AbftChain proofs.AbftRoots proofs.AbftRooted proofs.AbftRunInv proofs.VecStep proofs.AbftInv proofs.AbftInvStep proofs.AbftGraph proofs.AbftSealWitness.
 Import ListNotations.
 Local Open Scope N_scope.
 
@@ -64,6 +64,24 @@ Theorem C02_invariants_hold_on_every_run : forall cap pol smp epoch raw ops,
   let st := i_st (run_inst cap pol smp (start epoch raw) ops) in elinv st /\ V st.
 Proof. intros. apply run_good. apply start_good. Qed.
 
+(* Round 2: ... and the root table IS the set of graph root slots (invariant J, preserved by every operation:
+   C04_J_on_every_run), so: the Atropos of every block is an ACCEPTED EVENT of the epoch (possibly the one
+   just processed) whose self-parent frame is below and whose own frame is at least the block's frame --
+   a root of that frame in the sense of the frame rule *)
+Theorem C02_atropos_is_graph_root : forall cap eb i e u bl st',
+  J i -> elinv (i_st i) -> V (i_st i) -> guard i e true = None ->
+  wf_new (length (l_vals (i_st i))) (l_idx (i_st i)) (vev (l_vals (i_st i)) e) ->
+  process cap eb (aput (a_id e) e (i_es i)) (i_st i) e = (Ok u, bl, st') ->
+  forall b, In b bl -> b_atropos b <> 0 ->
+    exists e0, (e0 = e \/ In e0 (acc_events i)) /\ a_id e0 = b_atropos b /\
+               spf_in (aput (a_id e) e (i_es i)) e0 < b_frame b <= a_frame e0.
+Proof. intros cap eb i e u bl st' HJ HI HV G W E b Hb Hz. exact (proj1 (accepted_blocks_graph cap eb i e u bl st' HJ HI HV G W E b Hb Hz)). Qed.
+(* the root table = graph root slots, as an invariant of every run *)
+Theorem C02_root_table_is_graph_slots : forall i, J i -> forall r,
+  In r (l_roots (i_st i)) <->
+  exists e, In (a_id e) (i_proc i) /\ get_event (i_es i) (a_id e) = Some e /\ slot_of (i_es i) e r.
+Proof. intros i HJ. exact (j_roots i HJ). Qed.
+
 (* restart: the blocks Bootstrap may emit obey the same numbering *)
 Theorem C02_bootstrap_frames : forall cap end_block es p r bl st',
   bootstrap cap end_block es p = (r, bl, st') ->
@@ -88,3 +106,5 @@ Print Assumptions C02_bootstrap_frames.
 Print Assumptions C02_atropos_is_root.
 Print Assumptions C02_V_initially.
 Print Assumptions C02_invariants_hold_on_every_run.
+Print Assumptions C02_atropos_is_graph_root.
+Print Assumptions C02_root_table_is_graph_slots.
